@@ -1,0 +1,71 @@
+//go:build verif
+
+package table
+
+// VerifFibFingerprint hashes the stored representation of the FIB-strategy
+// table - entries, next hops and strategies in storage order, children in
+// slice order - without taking its lock. The simulator calls it while every
+// task is parked, to check that the representation does not change while a
+// read lock is held.
+func VerifFibFingerprint() uint64 {
+	const prime = 1099511628211
+	mix := func(h uint64, v uint64) uint64 {
+		h ^= v
+		h *= prime
+		h ^= h >> 29
+		return h
+	}
+	entry := func(h uint64, e *baseFibStrategyEntry) uint64 {
+		h = mix(h, e.name.Hash())
+		h = mix(h, uint64(len(e.nexthops)))
+		for _, nh := range e.nexthops {
+			h = mix(mix(h, nh.Nexthop), nh.Cost)
+		}
+		if e.strategy != nil {
+			h = mix(h, e.strategy.Hash())
+		} else {
+			h = mix(h, 1)
+		}
+		return h
+	}
+	switch f := FibStrategyTable.(type) {
+	case *FibStrategyTree:
+		var walk func(h uint64, n *fibStrategyTreeEntry) uint64
+		walk = func(h uint64, n *fibStrategyTreeEntry) uint64 {
+			h = mix(h, uint64(n.depth))
+			h = entry(h, &n.baseFibStrategyEntry)
+			h = mix(h, uint64(len(n.children)))
+			for _, c := range n.children {
+				h = walk(h, c)
+			}
+			return h
+		}
+		h := walk(14695981039346656037, f.root)
+		sum := uint64(0)
+		for k, e := range f.fibPrefixes {
+			sum += mix(mix(7, k), e.name.Hash())
+		}
+		return mix(h, sum)
+	case *FibStrategyHashTable:
+		sum := uint64(0)
+		for k, e := range f.realTable {
+			sum += entry(mix(3, k), e)
+		}
+		for k, v := range f.virtTable {
+			sum += mix(mix(5, k), uint64(v.md))
+		}
+		for k, names := range f.virtTableNames {
+			inner := uint64(0)
+			for s, l := range names {
+				hs := uint64(14695981039346656037)
+				for i := 0; i < len(s); i++ {
+					hs = mix(hs, uint64(s[i]))
+				}
+				inner += mix(hs, uint64(l))
+			}
+			sum += mix(mix(11, k), inner)
+		}
+		return mix(uint64(f.m), sum)
+	}
+	return 0
+}
